@@ -276,7 +276,7 @@ pub fn alphabet23() -> Vec<Tok> {
 pub fn alphabet_all() -> Vec<Tok> {
     let mut v: Vec<Tok> = crate::refmodel::lex::OPS.iter().map(|o| tok(o)).collect();
     // (the last three are words the documentation does not define; a separator must not change them either)
-    for w in ["1", "2.5", "0x1f", "1e3", "a", "f", "x", "true", "\"s\"", "\"/*\"", "1e", "9223372036854775808", "0xffffffffffffffffff", "1e999", "\")\\\"\"", "\"(\"", "0x1e", "2E", "#", "#a", "\\", "a\\", "and", "or", "not", "ī", "н", ".5", "5.", "1E+3", "007", "r", "if", "“a", "b”", "‘", "math::", "a::", "\u{feff}", "_", "min", "math::pi", "mod", "xor", "in"] {
+    for w in ["1", "2.5", "0x1f", "1e3", "a", "f", "x", "true", "\"s\"", "\"/*\"", "1e", "9223372036854775808", "0xffffffffffffffffff", "1e999", "\")\\\"\"", "\"(\"", "0x1e", "2E", "#", "#a", "\\", "a\\", "and", "or", "not", "ī", "н", ".5", "5.", "1E+3", "007", "r", "if", "“a", "b”", "‘", "math::", "a::", "\u{feff}", "_", "min", "math::pi", "mod", "xor", "in", "[", "]", "{"] {
         v.push(tok(w));
     }
     v
@@ -346,6 +346,7 @@ pub fn literal_pool() -> Vec<RV> {
         RV::Str("a b".into()),
         // text that names variables of the program in the notations other languages interpolate
         RV::Str("l1\r\nl2\rl3".into()),
+        RV::Str("Größe in \"mm\" \\ zoll".into()),
         RV::Str("{a}".into()),
         RV::Str("x is {x}, b is ${b} and #{total}".into()),
     ]
